@@ -602,7 +602,11 @@ impl Blockchain {
                 && !configs.is_spv_mode()
             {
                 // TODO : this will have an impact when the block sizes are getting large or there are many forks. need to handle this
-                storage.write_block_to_disk(block).await;
+                // a block which was just read from its file is not written again : rewriting it in place
+                // risks losing a block that was already durable if the process dies during the write
+                if !block.force_loaded {
+                    storage.write_block_to_disk(block).await;
+                }
 
                 let writing_interval = configs
                     .get_blockchain_configs()
